@@ -21,7 +21,8 @@ RULE = ("GFF3 file databases with a depth-4 hierarchy, multi-parent and id-less 
         "fault cases: an update of n features whose one-shot source raises at position k for every k in 0..n, "
         "checklines 0 and 1; non-trivial history = contains an update after a delete or reopen; distinct by (base salt, word) "
         "and by (n, k, checklines)")
-REQUIRED = ["auto-keyed updates after a failed update on the same handle", "second-handle comparisons", "look-ups with Feature objects fetched before the step", "updates with hand-built Feature objects", "merge() outputs stored through update", "spawn-history steps compared", "bulk deletes (hundreds of ids in one call)", "iteration order compared after a step", "live-handle comparisons", "history steps applied", "content dumps compared with the model", ".bak compared with pre-operation content",
+REQUIRED = ["merges into a feature whose parent was deleted earlier", "the caller's Feature object handed in again after the merged feature was deleted",
+            "updates whose text is written in another spelling than the database's dialect", "auto-keyed updates after a failed update on the same handle", "second-handle comparisons", "look-ups with Feature objects fetched before the step", "updates with hand-built Feature objects", "merge() outputs stored through update", "spawn-history steps compared", "bulk deletes (hundreds of ids in one call)", "iteration order compared after a step", "live-handle comparisons", "history steps applied", "content dumps compared with the model", ".bak compared with pre-operation content",
             "auto-generated keys checked for freshness", "faults injected", "faults injected mid-import (beyond the peek window)",
             "reopen steps", "failpoints fired inside gffutils", "metamorphic comparisons (batched updates vs single import)",
             "metamorphic comparisons (delete undoes the last update)"]
@@ -217,6 +218,8 @@ def execute(ctx, case):
             bulk(ctx, case)
         elif case["kind"] == "spawn_history":
             spawn_history(ctx, case)
+        elif case["kind"] == "merge_after_delete":
+            merge_after_delete(ctx, case)
         else:
             fault(ctx, case)
     finally:
@@ -632,6 +635,17 @@ def metamorphic(ctx, case):
                     db = gffutils.FeatureDB(inc)
                     ctx.mon("reopen steps")
                 how = (case["seed"] + i) % 4
+                if fmt == "gff3" and how in (0, 1) and (case["seed"] // 4 + i) % 2 == 0:
+                    # the update's text uses another legal punctuation than the file the database was made from
+                    # ('; ' between attributes and a trailing semicolon): it is read in ITS spelling
+                    restyled = []
+                    for l in b.splitlines():
+                        cols = l.split("\t")
+                        if len(cols) == 9 and cols[8] and not l.startswith("#"):
+                            cols[8] = "; ".join(x for x in cols[8].split(";") if x) + ";"
+                        restyled.append("\t".join(cols))
+                    b = "\n".join(restyled) + "\n"
+                    ctx.mon("updates whose text is written in another spelling than the database's dialect")
                 if how == 3:
                     # hand-built Feature objects (they carry the library's default dialect, not the file's)
                     import gffutils as _g
@@ -861,6 +875,54 @@ def bulk(ctx, case):
         cleanup(dbfn)
 
 
+def merge_after_delete(ctx, case):
+    """A feature whose parent was deleted is merged (same columns) with an arrival that names ANOTHER parent: the stored
+    attributes are the union, the relations added are those the ARRIVAL names - the deleted parent's link does not come
+    back.  Then the feature is deleted and the caller's same Feature object is handed in again: what is stored is what
+    that object says now."""
+    import gffutils
+    from gffutils.feature import feature_from_line
+
+    db, dbfn, model, text = build_base(ctx, case["salt"])
+    trace = []
+    try:
+        steps = []
+        db.delete("a", make_backup=False)
+        model.delete(["a"])
+        trace.append("delete a (the parent of b)")
+        stored = model.feats["b"]
+        arrival = {"cols": dict(stored["cols"]), "attrs": [["ID", ["b"]], ["Parent", ["g2"]], ["Note", ["moved"]]]}
+        f_obj = feature_from_line(line(arrival))
+        how = case["how"]
+        if how == "object":
+            db.update([f_obj], merge_strategy="merge", make_backup=False)
+        else:
+            db.update(line(arrival) + "\n", from_string=True, merge_strategy="merge", make_backup=False)
+        model.update([arrival], "merge")
+        trace.append("merge-update b with Parent=g2 (%s)" % how)
+        ctx.mon("merges into a feature whose parent was deleted earlier")
+        d = model.compare(dbdump.dump(dbfn))
+        if d:
+            ctx.violation(case, dict(d, trace=trace))
+            return
+        if how == "object":
+            db.delete("b", make_backup=False)
+            model.delete(["b"])
+            db.update([f_obj], merge_strategy="merge", make_backup=False)
+            model.update([arrival], "merge")
+            trace.append("delete b, hand in the same Feature object again")
+            ctx.mon("the caller's Feature object handed in again after the merged feature was deleted")
+            d = model.compare(dbdump.dump(dbfn))
+            if d:
+                ctx.violation(case, dict(d, trace=trace))
+                return
+        db.conn.close()
+    except Exception as ex:
+        ctx.violation(case, {"why": "history raised %r" % (ex,), "trace": trace})
+    finally:
+        cleanup(dbfn)
+
+
 def spawn_history(ctx, case):
     """A multi-line feature (same ID, different coordinates) under merge_strategy='merge': the later segments are filed
     under '<ID>_n'.  Deleting one of the features and continuing to merge must follow the model: a segment that comes
@@ -975,6 +1037,12 @@ def run(ctx):
                     case = {"kind": "spawn_history", "salt": (ctx.seed * 3 + j) % 50, "delete_which": dw, "readd": readd, "again_which": aw, "reopen": reopen}
                     execute(ctx, case)
                     ctx.case(("spawn_history", dw, readd, aw, reopen, case["salt"]), True, sample=case, cls="multi-line feature under merge across a delete")
+    for j, (salt, how) in enumerate([(s_, h) for s_ in range(0, 10 if ctx.tier == "quick" else 50) for h in ("object", "text")]):
+        if not ctx.mine(j):
+            continue
+        case = {"kind": "merge_after_delete", "salt": salt, "how": how}
+        execute(ctx, case)
+        ctx.case(("merge_after_delete", salt, how), True, sample=case, cls="merge after the parent was deleted")
     for j, form in enumerate(["ids", "features", "generator"]):
         if ctx.mine(j) or ctx.tier == "thorough":
             case = {"kind": "bulk", "n": rng.choice([1100, 1300]), "k": rng.choice([501, 640, 1001]), "seed": rng.randrange(10 ** 6), "form": form}
